@@ -24,6 +24,7 @@ var c03Actions = []string{
 	"A.DeleteMany({n:{$lt:0}}) matching nothing", "A.BulkWrite(update and delete of a missing _id)",
 	"C.DropIndexByKey({n:1})",
 	"A.FindOneAndUpdate($inc n) with a rejected projection",
+	"A.CreateIndex({m:1}) with the session's context while its transaction is open",
 }
 
 type c03Doc struct{ id, n int32 }
@@ -146,6 +147,9 @@ func (r *c03Runner) Step(a int) bool {
 	name := c03Actions[a]
 	// writes of the plain client would block while A holds the writer slot: that interleaving belongs to C04/C16
 	if r.open && (a >= 7 && a <= 12 || a == 16) {
+		return false
+	}
+	if a == 18 && !r.open {
 		return false
 	}
 	if a == 16 {
@@ -326,6 +330,13 @@ func (r *c03Runner) Step(a int) bool {
 	case 13:
 		w.Store.FailNext = 1
 		r.fail = true
+	case 18:
+		// a call that needs a write transaction of its own is rejected while the session has one: it neither commits the
+		// session's transaction nor waits for the slot that transaction holds
+		_, err := coll.Indexes().CreateOne(r.sctx, mongo.IndexModel{Keys: bD("m", int32(1))})
+		if err == nil {
+			r.viol("nested-write-accepted", "Indexes().CreateOne with the context of a session whose transaction is open succeeded")
+		}
 	case 17:
 		// fails after the write inside the call: neither this write nor anything the transaction did before is affected
 		err := coll.FindOneAndUpdate(r.sctx, bD(), bD("$inc", bD("n", int32(1))), options.FindOneAndUpdate().SetProjection(bD("n", int32(1), "s", int32(0)))).Err()
@@ -371,6 +382,13 @@ func (r *c03Runner) Step(a int) bool {
 	if r.open {
 		wantA = c03Render(r.view)
 	}
+	// the estimated count is a read like the others
+	if n, err := coll.EstimatedDocumentCount(w.Ctx); err != nil || int(n) != len(wantC) {
+		r.viol("visibility:other-client:estimated-count:"+name, fmt.Sprintf("a plain client's EstimatedDocumentCount is %d (err %v), the committed state holds %d documents", n, err, len(wantC)))
+	}
+	if n, err := coll.EstimatedDocumentCount(r.sctx); err != nil || int(n) != len(wantA) {
+		r.viol("visibility:own-writes:estimated-count:"+name, fmt.Sprintf("the session's EstimatedDocumentCount is %d (err %v), it should see %d documents (transaction open=%v)", n, err, len(wantA), r.open))
+	}
 	gotA, err := findAll(r.sctx, coll)
 	if err != nil || strings.Join(gotA, "|") != strings.Join(wantA, "|") {
 		r.viol("visibility:own-writes:"+name, fmt.Sprintf("the session reads %v (err %v), expected %v (transaction open=%v)", gotA, err, wantA, r.open))
@@ -401,6 +419,15 @@ func (r *c03Runner) Step(a int) bool {
 		}
 		if got != s.want {
 			r.viol("snapshot-changed:"+s.kind+":"+name, fmt.Sprintf("%s snapshot taken after step %d changed.\nwas:\n%s\nnow:\n%s", s.kind, s.step, s.want, got))
+		}
+	}
+	// a read-only transaction used as a scratch pad (writes into it are never committed) is nobody else's business
+	if scratch, err := w.Engine.Begin(nil, false); err == nil {
+		doc := bD("_id", int32(-99), "n", int32(-99))
+		_, _ = scratch.Insert(lungo.Handle{"d", c03Coll}, []*bson.D{&doc}, true)
+		_, _ = scratch.Delete(lungo.Handle{"d", c03Coll}, &bson.D{}, nil, 0, 0)
+		if got, err := findAll(w.Ctx, coll); err != nil || strings.Join(got, "|") != strings.Join(wantC, "|") {
+			r.viol("scratch-transaction-visible:"+name, fmt.Sprintf("after writes into a read-only transaction that is thrown away a plain client reads %v, the committed state is %v", got, wantC))
 		}
 	}
 	// take new snapshots
